@@ -61,12 +61,15 @@ def run(ck, progs):
                      "(first/last column, first/last row, row parity: 24 attainable combinations, degenerate 1xN / Nx1 / 1x1 maps included) and must give "
                      "the same number everywhere; for rings the count is the number of directions the helper answers; star, mesh and graph return the "
                      "number of other regions / one / the length of the adjacency list")
+    ck.rule("C19.6", "a region without neighbours gets INVALID_DIRECTION: the random draw of the star centre and of the full mesh excludes "
+                     "`from`, so every path to it must have tested that another region exists (regions != 1)")
     for cfg, P in progs.items():
         _purity(ck, P, cfg)
         _dispatch(ck, P, cfg)
         _directions(ck, P, cfg)
         _probe_all(ck, P, cfg)
         _counts(ck, P, cfg)
+        _lonely(ck, P, cfg)
 
 
 def _purity(ck, P, cfg):
@@ -596,3 +599,45 @@ def _symshow(v):
     if isinstance(v, tuple):
         return {"R": "regions", "W": "width", "H": "height", "F": "from"}.get(v[0], v[0]) + ("%+d" % v[1] if v[1] else "")
     return str(v)
+
+
+def _lonely(ck, P, cfg):
+    n = 0
+    for hname in ("get_neighbor_star", "get_neighbor_mesh"):
+        h = P.fn_opt(hname)
+        if h is None:
+            continue
+        draws = [c for c in h.calls() if c.callee in ("Random", "RandomRange", "RandomU64")]
+        for c in draws:
+            n += 1
+            inst = "lonely@%s" % hname
+            paths, complete = Q.path_conditions(h, c)
+            unguarded = None
+            for conds in paths:
+                ok = False
+                for core, t in conds:
+                    core = X.strip(core)
+                    if core.k != "BinaryOperator" or core.op not in ("==", "!=", "<", ">", "<=", ">="):
+                        continue
+                    l, r = X.strip(core.children[0], casts=True), X.strip(core.children[1], casts=True)
+                    op = core.op
+                    if l.k != "MemberExpr" and r.k == "MemberExpr":
+                        l, r = r, l
+                        op = {"<": ">", ">": "<", "<=": ">=", ">=": "<=", "==": "==", "!=": "!="}[op]
+                    k = X.const_int(r)
+                    if l.k != "MemberExpr" or l.name != "regions" or k is None:
+                        continue
+                    # does (regions OP k) == t exclude regions == 1 ?   (regions >= 1 always)
+                    holds_at_1 = {"==": 1 == k, "!=": 1 != k, "<": 1 < k, ">": 1 > k, "<=": 1 <= k, ">=": 1 >= k}[op]
+                    if bool(holds_at_1) != bool(t):
+                        ok = True
+                if not ok:
+                    unguarded = conds
+            if not complete:
+                ck.inconclusive("C19.6", inst, c.where, "too many paths", cfg)
+            elif unguarded is not None:
+                ck.violated("C19.6", inst, c.where, "%s draws a region other than `from` with %s on a path that never tested topology->regions against 1: in a one-region "
+                            "topology it returns a region that does not exist (or never returns) instead of INVALID_DIRECTION" % (hname, c.callee), cfg)
+            else:
+                ck.holds("C19.6", inst, c.where, "the draw is reached only when another region exists", cfg)
+    ck.expect("C19.6", n, 2, "random draws of the star / mesh helpers")
